@@ -46,57 +46,55 @@ func (c *Ctl) fire() {
 	}
 }
 
+// Data wraps a record writer; only Write, WriteSync and Close are intercepted, every other method of the interface
+// (also ones it may grow) goes straight to the wrapped writer through the embedded field.
 type Data struct {
-	W recordio.WriterI
+	recordio.WriterI
 	C *Ctl
 }
 
-func (f *Data) Open() error { return f.W.Open() }
 func (f *Data) Close() error {
 	if f.C.FailClose {
 		f.C.fire()
 		return ErrInjected
 	}
-	return f.W.Close()
+	return f.WriterI.Close()
 }
-func (f *Data) Size() uint64        { return f.W.Size() }
-func (f *Data) Seek(o uint64) error { return f.W.Seek(o) }
 func (f *Data) Write(r []byte) (uint64, error) {
 	if f.C.shouldFail() {
 		return 0, ErrInjected
 	}
-	return f.W.Write(r)
+	return f.WriterI.Write(r)
 }
 func (f *Data) WriteSync(r []byte) (uint64, error) {
 	if f.C.shouldFail() {
 		return 0, ErrInjected
 	}
-	return f.W.WriteSync(r)
+	return f.WriterI.WriteSync(r)
 }
 
+// Index wraps an index writer the same way.
 type Index struct {
-	W rProto.WriterI
+	rProto.WriterI
 	C *Ctl
 }
 
-func (f *Index) Open() error { return f.W.Open() }
 func (f *Index) Close() error {
 	if f.C.FailClose {
 		f.C.fire()
 		return ErrInjected
 	}
-	return f.W.Close()
+	return f.WriterI.Close()
 }
-func (f *Index) Size() uint64 { return f.W.Size() }
 func (f *Index) Write(m proto.Message) (uint64, error) {
 	if f.C.shouldFail() {
 		return 0, ErrInjected
 	}
-	return f.W.Write(m)
+	return f.WriterI.Write(m)
 }
 func (f *Index) WriteSync(m proto.Message) (uint64, error) {
 	if f.C.shouldFail() {
 		return 0, ErrInjected
 	}
-	return f.W.WriteSync(m)
+	return f.WriterI.WriteSync(m)
 }
